@@ -9,13 +9,52 @@ use proptest::prelude::*;
 
 pub struct C04;
 
+/// a witness and a few follow-up witnesses derived from it by changing one component; all of them
+/// are evaluated back to back on one thread (the published values must be a function of the
+/// witness alone, whatever was computed just before)
+#[derive(Clone, Debug, serde::Serialize, serde::Deserialize)]
+pub struct Case {
+    pub w: Wit,
+    pub follow: Vec<Follow>,
+}
+
+#[derive(Clone, Copy, Debug, serde::Serialize, serde::Deserialize)]
+pub enum Follow {
+    /// another message id below the same limit
+    Mid(u16),
+    X(crate::models::field::Fx),
+    E(crate::models::field::Fx),
+    S(crate::models::field::Fx),
+    Same,
+}
+
+fn derive(w: &Wit, f: &Follow) -> Wit {
+    let mut n = w.clone();
+    match f {
+        Follow::Mid(raw) => {
+            use num_traits::ToPrimitive;
+            let limit = w.limit.big().to_u64().unwrap_or(1).max(1);
+            let mut m = (*raw as u64) % limit;
+            if crate::models::field::Fx::from_u64(m) == w.mid {
+                m = (m + 1) % limit;
+            }
+            n.mid = crate::models::field::Fx::from_u64(m);
+        }
+        Follow::X(x) => n.x = *x,
+        Follow::E(e) => n.e = *e,
+        Follow::S(s) => n.s = *s,
+        Follow::Same => {}
+    }
+    n
+}
+
 impl Property for C04 {
-    type Case = Wit;
+    type Case = Case;
     fn id(&self) -> &'static str {
         "C04"
     }
     fn rule(&self) -> String {
-        "witnesses (s, limit, m, 20 path elements, 20 direction bits, x, e) accepted by the circuit (m < limit <= 2^16), field values boundary-weighted, bit patterns weighted to all-0/all-1/alternating/single-1/single-0/random; three-way comparison proof_values_from_witness == BigUint formulas (reference Poseidon) == witness vector positions 1..5 of the bundled graph (y, root, nullifier, x, e). \
+        "witnesses (s, limit, m, 20 path elements, 20 direction bits, x, e) accepted by the circuit (m < limit <= 2^16), field values boundary-weighted, bit patterns weighted to all-0/all-1/alternating/single-1/single-0/random; three-way comparison proof_values_from_witness == BigUint formulas (reference Poseidon) == witness vector positions 1..5 of the bundled graph (y, root, nullifier, x, e), plus serialize_proof_values bytes == the formulas' values in the documented layout; 40% of the cases are followed back to back on the same thread by 1..3 related witnesses (another message id below the limit / another x / external nullifier / secret / the same) and by the first witness again. \
          non-trivial = a direction bit set at level >= 8 or a boundary field value; distinct by case content".into()
     }
     fn assumptions(&self) -> Vec<String> {
@@ -28,10 +67,50 @@ impl Property for C04 {
         keccak_ref::selftest()?;
         poseidon_ref::selftest()
     }
-    fn strategy(&self, _tier: Tier, _shard: usize) -> BoxedStrategy<Wit> {
-        valid_wit()
+    fn strategy(&self, _tier: Tier, _shard: usize) -> BoxedStrategy<Case> {
+        let follow = prop_oneof![
+            4 => any::<u16>().prop_map(Follow::Mid),
+            2 => gens::fx().prop_map(Follow::X),
+            2 => gens::fx().prop_map(Follow::E),
+            1 => gens::fx().prop_map(Follow::S),
+            1 => Just(Follow::Same),
+        ];
+        (valid_wit(), prop_oneof![3 => Just(vec![]).boxed(), 2 => proptest::collection::vec(follow, 1..4).boxed()]).prop_map(|(w, follow)| Case { w, follow }).boxed()
     }
-    fn check(&self, _ctx: &Ctx, w: &Wit) -> Outcome {
+    fn check(&self, ctx: &Ctx, c: &Case) -> Outcome {
+        let mut o = check_one(ctx, &c.w);
+        if !c.follow.is_empty() {
+            o.label("sequence-of-related-witnesses");
+        }
+        let mut evals = o.evals;
+        for (k, f) in c.follow.iter().enumerate() {
+            if o.failed() {
+                break;
+            }
+            let w2 = derive(&c.w, f);
+            let o2 = check_one(ctx, &w2);
+            evals += o2.evals;
+            if let Some(m) = o2.fail {
+                vfail!(o, "{m} [witness {} of a back-to-back sequence: the first witness with {f:?}]", k + 2);
+            }
+            // and the first one again
+            let o3 = check_one(ctx, &c.w);
+            evals += o3.evals;
+            if let Some(m) = o3.fail {
+                vfail!(o, "{m} [the first witness evaluated again after a related one ({f:?})]");
+            }
+        }
+        o.evals = evals;
+        o
+    }
+    fn sample_view(&self, c: &Case) -> serde_json::Value {
+        let w = &c.w;
+        serde_json::json!({"s": w.s, "limit": w.limit, "mid": w.mid, "bits": w.bits.iter().map(|b| b.to_string()).collect::<String>(), "x": w.x, "e": w.e, "path0": w.path[0], "follow": c.follow})
+    }
+}
+
+fn check_one(_ctx: &Ctx, w: &Wit) -> Outcome {
+    {
         let mut o = Outcome::new();
         let high_bit = w.bits.iter().enumerate().any(|(i, b)| i >= 8 && *b == 1);
         let boundary = [w.s, w.x, w.e].iter().any(gens::is_boundary);
@@ -64,6 +143,14 @@ impl Property for C04 {
                         return o;
                     }
                 }
+                // the bytes that are actually published (documented order root | e | x | y | nullifier)
+                let published = rln::protocol::serialize_proof_values(&v);
+                let want_bytes = crate::models::codec_ref::enc_values(&crate::models::codec_ref::ValuesRef { root: want.root.clone(), e: r.e.clone(), x: r.x.clone(), y: want.y.clone(), nullifier: want.nullifier.clone() });
+                if published != want_bytes {
+                    let at = published.iter().zip(want_bytes.iter()).position(|(a, b)| a != b);
+                    vfail!(o, "serialize_proof_values: published bytes differ from the formulas' values in the documented layout (first difference at byte {at:?}, lengths {} / {})", published.len(), want_bytes.len());
+                    return o;
+                }
             }
             other => {
                 vfail!(o, "proof_values_from_witness failed on a valid witness: {other:?}");
@@ -89,8 +176,5 @@ impl Property for C04 {
         }
         o.evals = 2;
         o
-    }
-    fn sample_view(&self, w: &Wit) -> serde_json::Value {
-        serde_json::json!({"s": w.s, "limit": w.limit, "mid": w.mid, "bits": w.bits.iter().map(|b| b.to_string()).collect::<String>(), "x": w.x, "e": w.e, "path0": w.path[0]})
     }
 }
